@@ -41,43 +41,10 @@ def report_mismatches(ctx, mm, stream, what_fmt, limit=2, shrink=True):
                                                           "mismatching_cases_in_run": len(mm)})
 
 
-# ---------------------------------------------------------------- C15
-def check_C15(ctx):
-    ctx.proofs()
-    st = {"name": "idm", "harness": "idm", "driver": "idm"}
-    mm = ctx.stream("idm", "idm", "idm")
-    if mm is None:
-        return
-    report_mismatches(ctx, mm, st, "MemIdm answers differ from the two-list reference (model proved equal to it, theorem C15_refine) on %d generated histories")
+def load_all():
+    """Import every lib/vcheck/checks/*.py (each registers its check in CHECKS)."""
+    import importlib, pkgutil
+    from . import checks
+    for m in sorted(pkgutil.iter_modules(checks.__path__), key=lambda m: m.name):
+        importlib.import_module(checks.__name__ + "." + m.name)
 
-
-CHECKS["C15"] = check_C15
-
-
-# ---------------------------------------------------------------- C16
-def check_C16(ctx):
-    ctx.proofs()
-    st = {"name": "copy", "harness": "copy", "driver": "copy"}
-    mm = ctx.stream("copy", "copy", "copy")
-    if mm is None:
-        return
-    report_mismatches(ctx, mm, st, "CopyFile/CopyFileHash/HashFile differ from the model (proved to report every hit fault and to copy faithfully, theorems C16_ok/C16_reports) on %d (fs pair, content, fault plan) cases")
-
-
-CHECKS["C16"] = check_C16
-
-
-# ---------------------------------------------------------------- C13
-def check_C13(ctx):
-    ctx.proofs()
-    st = {"name": "path", "harness": "path", "driver": "path", "tags": "avfs_setostype"}
-    mm = ctx.stream("path", "path", "path", tags="avfs_setostype")
-    if mm is None:
-        return
-    # every line carries, for the POSIX flavour, a second segment with what the host's path/filepath returns;
-    # the model prints the same functions in both segments, so a mismatch in either segment is a deviation of
-    # the code from the model (segment 1) or of the model from path/filepath (segment 2).
-    report_mismatches(ctx, mm, st, "avfs path functions / PathIterator differ from the model or from the host's path/filepath on %d generated inputs", shrink=False)
-
-
-CHECKS["C13"] = check_C13
